@@ -765,6 +765,10 @@ class Device(object):
         self.total_emitted += 1
         self.emitted += 1
         raw = W.pack(p.cmd, p.arg0, p.arg1, p.data)
+        if self.spec.get('junk_check_on_empty') and not p.data and p.cmd in (W.A_OKAY, W.A_CLSE):
+            # the checksum word of a packet without payload carries whatever was left in the device's buffer (nothing to check against)
+            raw = raw[:16] + struct.pack('<I', int(self.spec['junk_check_on_empty']) & 0xFFFFFFFF) + raw[20:]
+            self.probe('junk_checksum_word_on_empty_packet')
         c = self.corrupt
         if c and not c.get('_done') and (c.get('at') == p.seq if not c.get('noise_only') else (p.kind == 'noise' and p.seq >= c.get('at', 0))):
             c['_done'] = True
